@@ -163,6 +163,26 @@ pub fn refs(property: &'static str) -> ReplCell {
     c
 }
 
+/// `refs` with the two worlds' entity ids shifted against each other by one: the client's replica
+/// of each entity has the very bits of another server entity.
+pub fn refs_shifted(property: &'static str) -> ReplCell {
+    let mut c = refs(property);
+    c.name = format!("{}-refs-shifted", property.to_lowercase());
+    c.init = vec![Op::Spawn(1, M_A), Op::Spawn(0, M_A), Op::AlignNextId(0, 0)];
+    c.alphabet = vec![
+        Op::Nop,
+        Op::InsRef(0, 1),
+        Op::InsRef(1, 0),
+        Op::Mut(0, TR),
+        Op::Mut(1, TR),
+        Op::Rm(0, TR),
+        Op::Spawn(2, M_B),
+        Op::InsRef(1, 2),
+        Op::InsRef(2, 0),
+    ];
+    c
+}
+
 /// Parent/child relationships with synchronized replication of related entities.
 pub fn hierarchy(property: &'static str) -> ReplCell {
     let mut c = base("hier", property);
